@@ -236,6 +236,13 @@ func runC15(t *testing.T, seed uint64, planJSON []byte, tier string) (res *Resul
 					}
 				} else {
 					for _, f := range got {
+						// a failure is answered too, and to the same branch
+						if f.Body.Code != wantCode {
+							vv("addressing", "wrong-reply-kind", "reply code %d to a request whose manager failed, want %d", f.Body.Code, wantCode)
+						}
+						if f.Body.Xid != xid || f.Body.BranchID != r.Branch {
+							vv("addressing", "wrong-xid-or-branch-in-failure-reply", "the reply to a request whose manager failed names xid/branch %q/%d, the request had %q/%d", f.Body.Xid, f.Body.BranchID, xid, r.Branch)
+						}
 						if f.Body.Status == okStatus {
 							cls := "success-after-manager-" + r.Out
 							if mgrs[r.Type] == nil {
